@@ -14,7 +14,7 @@ import (
 	"verif/internal/prog"
 )
 
-var fileOpts = &syntax.FileOptions{Set: true, While: true, TopLevelControl: true, GlobalReassign: true, Recursion: true}
+var fileOpts = &syntax.FileOptions{Set: true, While: true, TopLevelControl: true, GlobalReassign: true, Recursion: false} // Recursion off: the default dialect, in which every call runs the dynamic recursion check
 
 // The shared module: executed once; its globals are frozen when it finishes.
 const moduleSrc = `
